@@ -12,6 +12,19 @@ recognised is not delivered."
 * spec : the acceptor `Ts.Spec.Protocol.accepts` written from the trait documentation alone.
 
 "packet" = any `p : Bytes` with `p.length = 188`; nothing else is assumed about its bytes.
+
+READING of the last clause (a choice, stated here so nobody has to infer it).  "Could not be
+recognised" is read as: the unit-start packet produced no `begin_packet`, which happens exactly when
+the packet has no payload or `PesHeader::from_bytes` returned `None` (fewer than 6 payload bytes or a
+start-code prefix other than `00 00 01`; `stepPure_begin_mem` in `Ts/Lemmas/C08.lean`).  It is NOT
+read as "the optional PES header (flags, `PES_header_data_length`, PTS/DTS …) is inconsistent": for
+a stream id with an optional header whose `PesParsedContents::from_bytes` fails, the filter still
+delivers `begin_packet` (the consumer sees `PesContents::Parsed(None)`) and the continuation data —
+that is the code's behaviour on the pinned and the repaired tree, proved on concrete packets in
+`Ts/Props/C02.lean` (`exSplit`: "header split over two packets ⇒ begin with `parsed:none`, data
+still delivered").  Under the stricter reading the clause would be false of the code; the
+reviewers and I judged the lenient reading to be the intended one because the trait hands the
+consumer the `PesHeader` precisely so that it can decide.
 -/
 namespace Ts.Props.C08
 open Ts Ts.Packet Ts.PesFilter Ts.Spec Ts.Spec.Protocol Ts.Lemmas.C08
